@@ -12,6 +12,8 @@ LOCAL_STATE = ['pyclifford/paulialg.py::PauliList.rotate_by#mask_state', 'pyclif
                'pyclifford/circuit.py::CliffordGate.backward#generator_local_state', 'pyclifford/paulialg.py::PauliList.transform_by#mask_state',
                'pyclifford/circuit.py::CliffordGate.forward#map_local_state']
 CASTS = [PA + 'Pauli.as_list', PA + 'Pauli.as_monomial', PA + 'Pauli.as_polynomial', PA + 'PauliList.as_polynomial', PA + 'Pauli.tokenize']
+ANY_GATE = ['pyclifford/circuit.py::CliffordGate.forward#any_state', 'pyclifford/circuit.py::CliffordGate.backward#any_state',
+            'pyclifford/circuit.py::CliffordLayer.forward#state', 'pyclifford/circuit.py::CliffordLayer.backward#state']
 MBACK = ['pyclifford/circuit.py::MeasureLayer.backward#record', 'pyclifford/circuit.py::MeasureLayer.backward#own']
 RANDOM_STATE = [ST + 'random_clifford_map', ST + 'random_clifford_state#none', ST + 'random_clifford_state#r', ST + 'random_pauli_state#none', ST + 'random_pauli_state#r',
                 'pyclifford/circuit.py::CliffordGate.forward#random_global_state', 'pyclifford/circuit.py::CliffordGate.forward#random_local_state',
@@ -27,7 +29,7 @@ CLASS_LAYER = [PA + 'Pauli.__matmul__#Pauli', PA + 'Pauli.__neg__', PA + 'Pauli.
                'pyclifford/circuit.py::CliffordGate.forward#map_global'] + GATES[3:] + LOCAL_GATES + LOCAL_STATE + \
               [PA + '%s.__rmul__#%s' % (c, t) for c in ('Pauli', 'PauliList') for t in ('1', 'i', 'm1', 'mi')] + \
               [PA + 'pauli#codes', PA + 'pauli#chars', PA + 'pauli#str', PA + 'PauliList.__getitem__#mask', PA + 'PauliList.__getitem__#slice', PA + 'PauliList.__getitem__#index'] + \
-              RANDOM_STATE + RANDOM_CLIFFORD[:2] + CASTS + MBACK + ['pyclifford/circuit.py::CliffordGate.copy#generator', 'pyclifford/circuit.py::CliffordGate.copy#maps', ST + 'StabilizerState.sample']
+              RANDOM_STATE + RANDOM_CLIFFORD[:2] + CASTS + MBACK + ['pyclifford/circuit.py::CliffordGate.copy#generator', 'pyclifford/circuit.py::CliffordGate.copy#maps', ST + 'StabilizerState.sample'] + ANY_GATE
 
 # every kernel that currently has a discharged contract (their frame.* obligations are the C17 frame conditions)
 MEASURE_LEMMAS = ['ordp_parity', 'xzpartial_full', 'selacq_map', 'selacq_image', 'partnersum_acq', 'transform_preserves_acq', 'acq_diff2', 'onsite_flat', 'acq_bilinear', 'acq_antisym', 'ipow_parity', 'ordg_bits', 'acq_zero', 'ordg_acq', 'selacq_gram', 'acqsum_ext',
@@ -89,13 +91,14 @@ def C05(run):
     run.deductive(keys=[U + 'stabilizer_measure', U + 'stabilizer_project', U + 'map_to_state', U + 'clifford_rotate', ST + 'CliffordMap.to_state#r',
                         ST + 'CliffordMap.to_state#none', ST + 'StabilizerState.copy', ST + 'StabilizerState.measure#list', ST + 'StabilizerState.measure#state',
                         ST + 'StabilizerState.postselect', 'pyclifford/circuit.py::MeasureLayer.forward', U + 'stabilizer_postselection', PA + 'PauliList.rotate_by#state', PA + 'PauliList.transform_by#state', GATES[3], GATES[4], GATES[5],
-                        U + 'stabilizer_projection_trace', U + 'mask', PA + 'PauliList.rotate_by#mask', PA + 'PauliList.transform_by#mask'] + LOCAL_STATE + RANDOM_STATE + RANDOM_CLIFFORD + MBACK,
+                        U + 'stabilizer_projection_trace', U + 'mask', PA + 'PauliList.rotate_by#mask', PA + 'PauliList.transform_by#mask'] + LOCAL_STATE + RANDOM_STATE + RANDOM_CLIFFORD + MBACK + ANY_GATE,
                   lemmas=MEASURE_LEMMAS + MASK_LEMMAS + ['acq_drop2', 'rot_preserve', 'acq_local'])
     run.bounded_check('c05_histories', _b().c05_histories, Nmax=3, walks=q(run, 45, 2500), steps=q(run, 10, 30))
     run.bounded_check('c06_measure', _b().c06_measure, Nmax=2, count=q(run, 25, 400), reps=q(run, 2, 5))
     return 'other', ('deductive (all N): the tableau invariant is preserved by the measurement / projection / post-selection kernels, by rotation and map transformation (global and on any '
                      'qubit subset), by every kind of gate - generator, map, and the RANDOM gate that resamples random_clifford_map at every call (every draw: the recursive sampler '
-                     'random_clifford is proved to return a table with the canonical commutation relations) -, and it holds for zero / maximally mixed / random_pauli_state / '
+                     'random_clifford is proved to return a table with the canonical commutation relations) -; ONE contract for ANY well-formed gate (generator / maps each absent or present: verified per combination) '
+                     'and, over it, a LAYER of any number of such gates in any mix, or its compiled map, forward and backward (loop over a list of objects of unknown length); it holds for zero / maximally mixed / random_pauli_state / '
                      'random_clifford_state of every rank; bounded: random histories from every constructor with the invariant and dense validity checked after every '
                      'public call; per-operation check for all N=1 tableaux')
 
@@ -272,7 +275,7 @@ TECHNIQUE = {
     'C02': 'deductive contracts (z3): clifford_rotate, rotate_by (unmasked, masked, on states with the tableau invariant, on single Paulis), clifford_rotation_map, double-rotation lemma; bounded dense-matrix stand-in for U^dagger P U, all masks and receivers',
     'C03': 'deductive contracts (z3): pauli_combine / pauli_transform as ordered products, transform_by (unmasked, masked, on states), homomorphism lemma chain (valid maps preserve commutation and Hermiticity); bounded dense-matrix stand-in',
     'C04': 'deductive contracts (z3): z2inv by the Gauss-Jordan augmented-matrix invariant, CliffordMap.inverse (inverse o map = identity, strings and phases), compose as functional contract, identity_map; bounded: two-sidedness, associativity on maps, N=1 exhaustive, sparse maps up to N=12',
-    'C05': 'deductive (z3, all N): tableau invariant preserved by the measure / project / projection_trace / postselection kernels, by state rotation and map transformation (global and on any qubit subset), by every kind of gate incl. the resampling random gate, by to_state / copy / measure / postselect glue, for the zero / mixed / random state constructors; bounded random histories for layer / circuit traversal',
+    'C05': 'deductive (z3, all N): tableau invariant preserved by the measure / project / projection_trace / postselection kernels, by state rotation and map transformation (global and on any qubit subset), by every kind of gate incl. the resampling random gate, by whole layers of arbitrary gates (forward / backward, compiled or not), by to_state / copy / measure / postselect glue, for the zero / mixed / random state constructors; bounded random histories for circuit traversal (linked layers), take / compile',
     'C06': 'deductive per-observable step contract of stabilizer_measure (Born rule / projection postulate in algebraic form, both coins) and measure glue (z3); bounded dense-matrix oracle for the identification with matrices',
     'C07': 'deductive contracts on stabilizer_expect, stabilizer_projection_trace, expect(list / state), get_prob as side-effect-free query (z3); bounded dense trace oracle',
     'C08': 'deductive contracts (z3): z2rank = GF(2) rank (abstract rank + three assumed classical lemmas, echelon invariant), stabilizer_entropy / StabilizerState.entropy = the textbook rank formulas; bounded dense von Neumann entropy oracle for the bridge',
